@@ -16,7 +16,7 @@ import (
 // grammar theorem's claim on it: verdict idempotent => the tree holds no now() / uuid() call).
 //
 // op:   <prefix encoding …> B:<hex of the table name> X:<hex of the term's text>
-// real: toks=<kind:idhex,…> idem=<1|0|1e|0e|panic>
+// real: toks=<kind:idhex,…> idem=<1|0|1e|0e|panic> upd=<the same for UPDATE <table> SET c = <text> WHERE k = 1>
 
 func init() { streams["ast"] = stream{gen: genAst, run: runAst} }
 
@@ -50,7 +50,8 @@ func runAst(op string) (out string) {
 		}
 		toks = append(toks, fmt.Sprintf("%d:%s", t.Kind, hex.EncodeToString([]byte(t.ID))))
 	}
-	return "toks=" + strings.Join(toks, ",") + " idem=" + idemOne("INSERT INTO "+table+" (c) VALUES ("+text+")")
+	return "toks=" + strings.Join(toks, ",") + " idem=" + idemOne("INSERT INTO "+table+" (c) VALUES ("+text+")") +
+		" upd=" + idemOne("UPDATE "+table+" SET c = "+text+" WHERE k = 1")
 }
 
 var astIdents = []string{"k", "v", "col1", "f", "ks", "now", "NOW", "NoW", "uuid", "UUID", "system", "SYSTEM", "System", "frozen", "list", "map", "int", "text",
